@@ -456,6 +456,12 @@ func (x *g) genType(depth int, self string) *spec.Type {
 		key := &spec.Attr{Type: &spec.Type{Kind: kk}}
 		if kk == spec.String && x.chance(1, 4) && x.o.Profile == "validation" {
 			key.Val = x.genVal(spec.String, nil)
+		} else if (kk == spec.String || kk == spec.Int) && x.o.Profile != "grpc" && x.chance(1, 6) {
+			// a primitive alias that is reachable ONLY as this map's key type
+			ka := &spec.UserType{Name: x.typeName("BinKeyAlias"), Kind: "alias", Def: &spec.Type{Kind: kk}}
+			x.s.Types = append(x.s.Types, ka)
+			key.Type = &spec.Type{Kind: spec.Ref, Ref: ka.Name}
+			x.s.AddFeature("map-key-alias-only")
 		}
 		x.s.AddFeature("map")
 		return &spec.Type{Kind: spec.Map, Key: key, Elem: x.genElem(depth+1, self)}
@@ -472,7 +478,7 @@ func (x *g) genType(depth int, self string) *spec.Type {
 			if t.Kind == "result" && x.o.Profile != "views" && x.o.Profile != "naming" {
 				continue
 			}
-			if t.ErrorOnly {
+			if t.ErrorOnly || strings.HasPrefix(t.Name, "BinKeyAlias") {
 				continue
 			}
 			cands = append(cands, t)
